@@ -23,6 +23,9 @@ def gen_scenario(seed, i, tier):
                   p_branches=55, else_pos=else_pos, needs=rng.chance(1, 2), mixed=rng.chance(1, 6), two_else=rng.chance(1, 10),
                   act_kinds=((gen.IRQ, 6), (gen.MSG, 2)))
     w = g.workflow("m1")
+    if i % 10 == 9:
+        add_hooks(w, rng.fork("hooks"))
+        g.features.add("hooks")
     inputs = {"x": rng.below(4), "y": rng.below(4)}
     policy = rng.pick(["fifo", "lifo", "rand", "fifo"])
     ops = [["deploy", 0], ["start", "m1", dict(pid="p1", **inputs)]]
@@ -36,6 +39,43 @@ def gen_scenario(seed, i, tier):
     sc = {"id": f"c01-{seed}-{i}", "config": {"keep": True, "dump_each": True}, "models": [w], "ops": ops, "exprs": g.exprs,
           "features": sorted(g.features | {"else-" + else_pos, policy})}
     return sc, inputs
+
+
+HOOK_EVENTS = ["created", "completed", "before_update", "updated", "step"]
+
+
+def add_hooks(w, rng):
+    """lifecycle hooks (message acts bound to an event by `on`) on the workflow, on steps and on acts"""
+    n = [0]
+
+    def hooks():
+        out = []
+        for _ in range(rng.range(1, 2)):
+            n[0] += 1
+            out.append({"uses": gen.MSG, "on": rng.pick(HOOK_EVENTS), "key": f"hook{n[0]}"})
+        return out
+
+    if rng.chance(1, 3):
+        w["setup"] = hooks()
+
+    def steps(ss):
+        for s in ss:
+            if rng.chance(1, 3):
+                s["setup"] = hooks()
+            for a in s.get("acts", []):
+                if rng.chance(1, 4):
+                    a["setup"] = hooks()
+            for b in s.get("branches", []):
+                steps(b.get("steps", []))
+    steps(w.get("steps", []))
+
+
+def hook_on_auto(w):
+    """the model has a hook of the created class (created / before_update).  The act such a hook fires becomes a child of the task whose
+    event fired it; when that task looks at its children before the hook act has ended (always, if it completes by itself: message and
+    function acts, steps without acts; under other release orders otherwise) it stays open, and the end of a hook act never makes
+    anybody look again"""
+    return any(k in json.dumps(w) for k in ('"on": "created"', '"on": "before_update"'))
 
 
 def quiescent_points(sc, res):
@@ -100,7 +140,9 @@ def run(ctx):
             kinds = sorted(set(f"{a}:{b}" for a, b in stranded))
             feats = [f for f in sc["features"] if f in ("needs", "else", "else-last", "two-else", "mixed")]
             cyc = wait_cycles(sc["models"][0])
-            if cyc:
+            if "hooks" in sc["features"] and hook_on_auto(sc["models"][0]) and not cyc:
+                shape = "hook-act-unfinished-at-review"
+            elif cyc:
                 shape = "wait-cycle:" + "+".join(sorted(cyc))
             elif "mixed" in feats and any(x.startswith("act") for x in kinds):
                 shape = "mixed"
@@ -128,13 +170,15 @@ def run(ctx):
     # ---- correspondence: engine vs operational model, engine vs reference interpretation
     ncorr = nref = 0
     for k, (sc, res, mod) in enumerate(zip(scs, results, models)):
+        if "hooks" in sc["features"]:
+            continue
         r = opcorr.compare(sc, res, mod, ["new", "tr", "ptr", "res", "queue"], with_dump=True)
         if r and r[1] not in ("unsupported", "exec-after-removal", "engine-stuck"):
             ctx.proof_break("correspondence: Op model", f"{sc['id']} op {r[0]} stream {r[1]}: {r[2][:300]}")
         else:
             ncorr += 1
     for k, (rq, rf) in enumerate(zip(ref_reqs, refs)):
-        if not isinstance(rf, dict) or not rf.get("in_fragment") or k in flagged:
+        if not isinstance(rf, dict) or not rf.get("in_fragment") or k in flagged or "hooks" in scs[k]["features"]:
             continue
         for (i, answered, opens, terminal), pt in zip(rq["_pts"], rf.get("points", [])):
             nref += 1
